@@ -1145,6 +1145,61 @@ void* __wrap_wsd_work_stealing_deque_steal(void* d) {
   if (r != (void*)-1 && r != (void*)-2) stat_steal_ok++;
   return r;
 }
+/* spinlock ownership ghost: a spinlock handed to the scheduler for a deferred unlock (spinlock_to_unlock)
+ * must not be released before its owner's context is saved */
+int __real_fiber_spinlock_lock(void* l);
+int __real_fiber_spinlock_trylock(void* l);
+int __real_fiber_spinlock_unlock(void* l);
+#define MAXSL 80
+static struct {
+  void* l;
+  int owner; /* ghost fiber index + 1, 0 = free */
+} SL[MAXSL];
+static int nsl;
+static int sl_find(void* l) {
+  for (int i = 0; i < nsl; i++)
+    if (SL[i].l == l) return i;
+  if (nsl < MAXSL) {
+    SL[nsl].l = l;
+    SL[nsl].owner = 0;
+    return nsl++;
+  }
+  return -1;
+}
+int __wrap_fiber_spinlock_lock(void* l) {
+  int r = __real_fiber_spinlock_lock(l);
+  if (sim_active && me >= 0 && fiber_mode) {
+    void* f = glue_current_fiber();
+    int i = sl_find(l);
+    if (i >= 0 && f) SL[i].owner = gidx(f) + 1;
+  }
+  return r;
+}
+int __wrap_fiber_spinlock_trylock(void* l) {
+  int r = __real_fiber_spinlock_trylock(l);
+  if (r && sim_active && me >= 0 && fiber_mode) {
+    void* f = glue_current_fiber();
+    int i = sl_find(l);
+    if (i >= 0 && f) SL[i].owner = gidx(f) + 1;
+  }
+  return r;
+}
+int __wrap_fiber_spinlock_unlock(void* l) {
+  if (sim_active && me >= 0 && fiber_mode) {
+    void* f = glue_current_fiber();
+    int i = sl_find(l);
+    if (i >= 0 && SL[i].owner && f) {
+      int o = SL[i].owner - 1;
+      if (G[o].f != f && G[o].g == G_RUNNING) {
+        /* not a violation by itself (the fiber has not been resumed early yet): reach probe + trace */
+        sim_probe("deferred_unlock_before_owner_saved", 1);
+        TR("[%lu] t%d deferred unlock of a spinlock owned by fiber #%d which still runs on t%d\n", g_steps, me, o, G[o].on);
+      }
+      SL[i].owner = 0;
+    }
+  }
+  return __real_fiber_spinlock_unlock(l);
+}
 int sim_pending_total(void) {
   int n = 0;
   for (int i = 0; i < ng; i++) n += G[i].pend;
